@@ -9,9 +9,15 @@ Streams
              mostly NOT a preorder)                                                vs Lean `resolve` over a synthetic class table
   gen      : TypeVarValue(bound, constraints).can_assign(v) / .can_be_assigned(v) (bound generation + make_bounds_map)
                                                                                    vs Lean `TV.accepts` / `TV.acceptedBy`
-  e2e      : generic functions in a checked module, called with argument tuples in every (parameter, argument) order;
-             the bounds collected by Signature.check_call_with_bound_args are recorded (call-level resolve_bounds_map), fed to
-             the Lean model, and the solution compared
+  gen      : … also against another TypeVarValue (equal / different variable, each with bound or constraints)
+  e2e      : generic functions in a checked module, called with argument tuples in every (parameter, argument) order
+             (positionally, by keyword in reversed order, keyword-only, with defaults); the bounds collected by
+             Signature.check_call_with_bound_args are recorded (call-level resolve_bounds_map), fed to the Lean model, and the
+             solution compared
+  e2e-bounds: the recorded bounds of each type variable  vs  the bounds predicted from the declared parameter / argument types
+             alone (lower bound per argument in parameter order, then the declared bound / constraints)
+  e2e-call : for signatures whose parameters are plain type variables: call accepted  vs  predicted from the Lean model
+             (every argument alone solvable, all bounds solvable, the solution accepts every argument)
 Property search on the implementation (independent evaluation: the harness, not the solver, checks the solution with
 is_assignable against every bound it was given):
   lower / upper / oneof : accepted  =>  the solution accepts every lower bound / is accepted by every upper bound / is one of
@@ -49,10 +55,11 @@ RULE = (
     "multisets of 0..5 bounds (lower / upper / at most one distinct constraint list, occasionally an OrBound or an exact "
     "duplicate) over a pool of static values (classes incl. a diamond hierarchy, literals, unions, list[...] / Sequence[...], "
     "tuple forms, NewType, Never) mixed with 'gradual' ones (Any, list[Any], bare list) and seeded random value terms; all "
-    "multisets of <= 2 bounds over a 14-value pool and all of 3 bounds over a 7-value pool exhaustively, then seeded random "
+    "multisets of <= 2 bounds over a 14-value pool and all of 3 bounds over a 9-value pool exhaustively, then seeded random "
     "ones; every multiset is solved in EVERY distinct permutation (<= 120). abstract: random relations on 4-5 mock values. "
-    "e2e: 7 generic signature shapes (T, list[T], Sequence[T], dict[K, V], Callable[[T], U], bounded, constrained) x argument "
-    "tuples from a pool of typed variables and literals, every (parameter, argument) order. non-trivial = at least two bounds "
+    "e2e: 23 generic signature shapes (T, list[T], Sequence[T], dict[K, V], Callable[[T], U], bounded, constrained; returning T or "
+    "None; plain, defaulted and keyword-only parameters) x argument tuples from a pool of 30 typed variables, literals and functions, "
+    "every (parameter, argument) order, a third of the calls by keyword in reversed order. non-trivial = at least two bounds "
     "that are not exact duplicates; distinct by bound text"
 )
 ASSUMPTIONS = [
@@ -80,7 +87,7 @@ def lst(t):
 
 
 POOL_SMALL = [INT, STR, BOOL, OBJ, LIT1, LITA, A_, B_, lst(INT), lst(ANY), ("typed", G.LIST), ("union", [INT, STR]), ANY, NEVER]
-POOL_TINY = [INT, STR, BOOL, LIT1, ("union", [INT, STR]), ANY, ("typed", G.LIST)]
+POOL_TINY = [INT, STR, BOOL, OBJ, LIT1, LITT, ("union", [INT, STR]), ANY, ("typed", G.LIST)]
 POOL = POOL_SMALL + [
     FLOAT, NONE, BYTES, C_, D_, LITT, lst(STR), lst(BOOL), ("generic", G.SEQUENCE, [INT]), ("generic", G.SEQUENCE, [STR]),
     ("union", [INT, NONE]), ("union", [STR, BYTES]), ("union", [B_, C_]), ("seq", G.TUPLE, [INT, STR]), ("newtype", 0, G.INT),
@@ -245,6 +252,7 @@ ADMISSIBLE = {
     "upper": ["twoUppers", "anyUpper", "oneOfUpper", "nonTransitive"],
     "oneof": [],
     "order": ["twoUppers", "anyUpper", "nonTransitive"],
+    "unsat": [],
 }
 
 
@@ -388,7 +396,7 @@ def exhaustive_multisets():
     singles = [(k, v) for k in ("L", "U") for v in POOL_SMALL] + [("O", cs) for cs in CONSTRAINT_LISTS[:4]]
     out += [[b] for b in singles]
     out += [list(c) for c in itertools.combinations_with_replacement(singles, 2)]
-    tiny = [(k, v) for k in ("L", "U") for v in POOL_TINY] + [("O", [INT, STR])]
+    tiny = [(k, v) for k in ("L", "U") for v in POOL_TINY] + [("O", [INT, STR]), ("O", [BOOL, INT, OBJ])]
     out += [list(c) for c in itertools.combinations_with_replacement(tiny, 3)]
     return [m for m in out if sum(1 for b in m if b[0] == "O") <= 1 or len({bound_sexp(b) for b in m if b[0] == "O"}) == 1]
 
@@ -532,14 +540,33 @@ def run_gen(ctx, with_model=True):
         v = random_value(rng, POOL)
         cases.append((rng.choice(("tvca", "tvcba")), decl, v))
     cases = [c for c in cases if not risky([c[2]] + ([c[1][0]] if c[1][0] else []) + list(c[1][1]))]
+    # against another TypeVarValue: ("tvtv", decl, (decl2, same typevar object?, which method))
+    for decl in decls:
+        for decl2 in decls[:8]:
+            for same_var in (False, True):
+                cases.append(("tvtv", decl, (decl2, same_var, rng.choice(("ca", "cba")))))
+
+    def decl_sexp(d):
+        b, cs = d
+        return "(B%s) (C%s)" % (" " + V.ty_sexp(b) if b else "", "".join(" " + V.ty_sexp(c) for c in cs))
+
+    def mk_tv(tvar, d):
+        b, cs = d
+        return PV.TypeVarValue(tvar, bound=V.ty_to_value(b) if b else None, constraints=tuple(V.ty_to_value(c) for c in cs))
+
     out = None
     if with_model:
-        out = lean.run_driver("C15", ["%s (B%s) (C%s) %s" % (op, " " + V.ty_sexp(b) if b else "", "".join(" " + V.ty_sexp(c) for c in cs),
-                                                              V.ty_sexp(v)) for op, (b, cs), v in cases])
+        out = lean.run_driver("C15", [
+            "tvtv %s %s %d" % (decl_sexp(d), decl_sexp(v[0]), int(v[1] and v[0] == d)) if op == "tvtv"
+            else "%s %s %s" % (op, decl_sexp(d), V.ty_sexp(v)) for op, d, v in cases])
     for i, (op, (b, cs), v) in enumerate(cases):
-        tv = PV.TypeVarValue(T, bound=V.ty_to_value(b) if b else None, constraints=tuple(V.ty_to_value(c) for c in cs))
+        tv = mk_tv(T, (b, cs))
         try:
-            r = tv.can_assign(V.ty_to_value(v), checker) if op == "tvca" else tv.can_be_assigned(V.ty_to_value(v), checker)
+            if op == "tvtv":
+                other = mk_tv(T if v[1] else V.TYPEVARS[1], v[0])
+                r = tv.can_assign(other, checker) if v[2] == "ca" else tv.can_be_assigned(other, checker)
+            else:
+                r = tv.can_assign(V.ty_to_value(v), checker) if op == "tvca" else tv.can_be_assigned(V.ty_to_value(v), checker)
             if isinstance(r, PV.CanAssignError):
                 impl = "ERR"
             else:
@@ -554,13 +581,24 @@ def run_gen(ctx, with_model=True):
 
 
 # ------------------------------------------------------------------ end to end
-E2E_VARS = [  # (expression, annotation or None for a literal)
+E2E_VARS = [  # (expression, annotation or None for a literal / a module-level function)
     ("vi", "int"), ("vs", "str"), ("vb", "bool"), ("vo", "object"), ("vf", "float"), ("va", "A"), ("vbb", "B"), ("vc", "Cc"), ("vd", "D"),
     ("vli", "list[int]"), ("vls", "list[str]"), ("vlb", "list[bool]"), ("vany", "Any"), ("vlany", "list[Any]"), ("vlst", "list"),
     ("vios", "int | str"), ("vn", "None"), ("vdsi", "dict[str, int]"), ("vdis", "dict[int, str]"), ("vby", "bytes"),
     ("1", None), ("True", None), ("'a'", None), ("None", None), ("1.5", None),
     ("fis", None), ("fsi", None), ("fbi", None), ("foi", None), ("fii", None),
 ]
+# the static type of each argument expression as a value term (what pyanalyze must infer for it)
+ARG_TERM = {
+    "vi": INT, "vs": STR, "vb": BOOL, "vo": OBJ, "vf": FLOAT, "va": A_, "vbb": B_, "vc": C_, "vd": D_, "vli": lst(INT), "vls": lst(STR),
+    "vlb": lst(BOOL), "vany": ANY, "vlany": lst(ANY), "vlst": ("typed", G.LIST), "vios": ("union", [INT, STR]), "vn": ("known", ("none",)),
+    "vdsi": ("generic", G.DICT, [STR, INT]), "vdis": ("generic", G.DICT, [INT, STR]), "vby": BYTES,
+    "1": LIT1, "True": LITT, "'a'": LITA, "None": ("known", ("none",)), "1.5": ("known", ("flt", 0)),
+}
+ELEM_TERM = {"vli": INT, "vls": STR, "vlb": BOOL, "vlany": ANY, "vlst": ANY}   # element type seen through list[T] / Sequence[T]
+DICT_TERM = {"vdsi": (STR, INT), "vdis": (INT, STR)}
+TV_DECL = {"": (None, []), ", bound=int": (INT, []), ", bound=A": (A_, []), ", int, str": (None, [INT, STR]),
+           ", str, bytes": (None, [STR, BYTES]), ", int, float": (None, [INT, FLOAT])}
 E2E_PRELUDE = """\
 from typing import Any, Callable, Sequence, TypeVar
 from harness.universe import A, B, Cc, D
@@ -575,10 +613,11 @@ def foi(x: object) -> int:
 def fii(x: int) -> int:
     raise NotImplementedError
 """
-# shape: list of (parameter annotation with {T} {K} {V} {U}, argument class), return annotation, TypeVar declarations
+# shape: parameter annotations with {T} {K} {V} {U}, return annotation, TypeVar declarations
 E2E_SHAPES = {
     "T,T": (["{T}", "{T}"], "{T}", {"T": ""}),
     "T,T,T": (["{T}", "{T}", "{T}"], "{T}", {"T": ""}),
+    "T,T->None": (["{T}", "{T}"], "None", {"T": ""}),
     "T,list[T]": (["{T}", "list[{T}]"], "{T}", {"T": ""}),
     "list[T],list[T]": (["list[{T}]", "list[{T}]"], "{T}", {"T": ""}),
     "T,Sequence[T],T": (["{T}", "Sequence[{T}]", "{T}"], "{T}", {"T": ""}),
@@ -587,11 +626,19 @@ E2E_SHAPES = {
     "Callable[[T],U],Callable[[T],U],T": (["Callable[[{T}], {U}]", "Callable[[{T}], {U}]", "{T}"], "{U}", {"T": "", "U": ""}),
     "3xCallable[[T],int],T": (["Callable[[{T}], int]", "Callable[[{T}], int]", "Callable[[{T}], int]", "{T}"], "{T}", {"T": ""}),
     "bound=int": (["{T}", "{T}"], "{T}", {"T": ", bound=int"}),
+    "bound=int->None": (["{T}", "{T}"], "None", {"T": ", bound=int"}),
     "bound=A": (["{T}", "{T}", "{T}"], "{T}", {"T": ", bound=A"}),
     "bound=int,list": (["{T}", "list[{T}]"], "{T}", {"T": ", bound=int"}),
     "constrained(int,str)": (["{T}", "{T}"], "{T}", {"T": ", int, str"}),
+    "constrained(int,str)->None": (["{T}", "{T}"], "None", {"T": ", int, str"}),
     "constrained(str,bytes),3": (["{T}", "{T}", "{T}"], "{T}", {"T": ", str, bytes"}),
     "constrained(int,float),list": (["{T}", "list[{T}]"], "{T}", {"T": ", int, float"}),
+    # the same with parameters that have defaults (all arguments are passed) / keyword-only parameters
+    "T,T(defaults)": (["{T}", "{T}"], "{T}", {"T": ""}, "defaults"),
+    "bound=int(defaults)": (["{T}", "{T}"], "{T}", {"T": ", bound=int"}, "defaults"),
+    "T,T,T(kwonly)": (["{T}", "{T}", "{T}"], "{T}", {"T": ""}, "kwonly"),
+    "constrained(int,str)(kwonly)": (["{T}", "{T}"], "{T}", {"T": ", int, str"}, "kwonly"),
+    "T,list[T](kwonly)": (["{T}", "list[{T}]"], "{T}", {"T": ""}, "kwonly"),
 }
 ARGS_FOR = {
     "{T}": ["vi", "vs", "vb", "vo", "vf", "va", "vbb", "vc", "vd", "vany", "vlany", "vlst", "vli", "vios", "vn", "1", "True", "'a'", "None", "1.5", "vby"],
@@ -603,6 +650,31 @@ ARGS_FOR = {
     "Callable[[{T}], {U}]": ["fis", "fsi", "fbi", "foi", "vany"],
     "Callable[[{T}], int]": ["fsi", "fbi", "foi", "fii", "vany"],
 }
+PLAIN = {"{T}": "T", "{K}": "K", "{V}": "V"}
+
+
+def inherent_terms(extra):
+    b, cs = TV_DECL[extra]
+    return ([("U", b)] if b else []) + ([("O", list(cs))] if cs else [])
+
+
+def expected_param_bounds(param, arg, tvs):
+    """The bounds `param_type.can_assign(arg_value)` has to produce, per type variable role, computed from the declared
+    types alone (independent of pyanalyze); None = not predicted for this combination."""
+    if param in PLAIN:
+        r = PLAIN[param]
+        return {r: [("L", ARG_TERM[arg])] + inherent_terms(tvs[r])} if arg in ARG_TERM else None
+    if param in ("list[{T}]", "Sequence[{T}]"):
+        if arg == "vany":
+            return {}
+        return {"T": [("L", ELEM_TERM[arg])] + inherent_terms(tvs["T"])} if arg in ELEM_TERM else None
+    if param == "dict[{K}, {V}]":
+        if arg == "vany":
+            return {}
+        if arg in DICT_TERM:
+            k, v = DICT_TERM[arg]
+            return {"K": [("L", k)] + inherent_terms(tvs["K"]), "V": [("L", v)] + inherent_terms(tvs["V"])}
+    return None
 
 
 def gen_e2e(ctx):
@@ -613,43 +685,54 @@ def gen_e2e(ctx):
     for a in small:
         for b in small:
             cases.append(("T,T", [a, b]))
-    for _ in range(ctx.n(300, 5000)):
+    for _ in range(ctx.n(320, 5000)):
         name = rng.choice(list(E2E_SHAPES))
         params = E2E_SHAPES[name][0]
         cases.append((name, [rng.choice(ARGS_FOR[p]) for p in params]))
     return cases
 
 
+def shape_of(name):
+    sh = E2E_SHAPES[name]
+    return sh[0], sh[1], sh[2], (sh[3] if len(sh) > 3 else "")
+
+
 def run_e2e(ctx, cases, with_model=True):
     """Each (shape, args) is instantiated once per order of its (parameter, argument) pairs; every instance has its own
-    TypeVar objects, so the recorded call-level resolve_bounds_map calls can be attributed to it."""
+    TypeVar objects, so the recorded call-level resolve_bounds_map calls can be attributed to it. A third of the instances
+    pass their arguments by keyword in reversed order (the bounds follow the parameter order, not the call order)."""
     import pyanalyze.signature as SIG
     from pyanalyze import value as PV
     checker = pya.make_checker()
+    uni = Universe()
     B = ctx.n(120, 150)
     for b0 in range(0, len(cases), B):
         part = cases[b0:b0 + B]
         lines = E2E_PRELUDE.rstrip("\n").split("\n")
-        insts = []   # (case index, perm, def name, {role: typevar name})
+        insts = []   # dicts: ci, p, fn, tvn
         for ci, (name, args) in enumerate(part):
-            params, ret, tvs = E2E_SHAPES[name]
+            params, ret, tvs, flavour = shape_of(name)
             for pi, p in enumerate(itertools.permutations(range(len(params)))):
                 tvn = {r: "%s_%d_%d" % (r, ci, pi) for r in tvs}
                 for r, extra in tvs.items():
                     lines.append('%s = TypeVar("%s"%s)' % (tvn[r], tvn[r], extra))
                 fn = "f_%d_%d" % (ci, pi)
-                sig = ", ".join("p%d: %s" % (k, params[j].format(**tvn)) for k, j in enumerate(p))
-                lines.append("def %s(%s) -> %s:" % (fn, sig, ret.format(**tvn)))
+                sig = ", ".join("p%d: %s%s" % (k, params[j].format(**tvn), " = None" if flavour == "defaults" else "")
+                                for k, j in enumerate(p))
+                lines.append("def %s(%s%s) -> %s:" % (fn, "*, " if flavour == "kwonly" else "", sig, ret.format(**tvn)))
                 lines.append("    raise NotImplementedError")
-                insts.append((ci, p, fn, tvn))
+                insts.append(dict(ci=ci, p=p, fn=fn, tvn=tvn, kw=flavour == "kwonly" or (ci + pi) % 3 == 0))
         lines.append("def caller(%s) -> None:" % ", ".join("%s: %s" % (v, a) for v, a in E2E_VARS if a is not None))
-        call_line = {}
-        for ci, p, fn, tvn in insts:
-            args = part[ci][1]
-            lines.append("    reveal_type(%s(%s))" % (fn, ", ".join(args[j] for j in p)))
-            call_line[len(lines)] = (ci, p)
+        for inst in insts:
+            args, p = part[inst["ci"]][1], inst["p"]
+            if inst["kw"]:
+                call = ", ".join("p%d=%s" % (k, args[j]) for k, j in reversed(list(enumerate(p))))
+            else:
+                call = ", ".join(args[j] for j in p)
+            lines.append("    reveal_type(%s(%s))" % (inst["fn"], call))
+            inst["line"] = len(lines)
         src = "\n".join(lines) + "\n"
-        records = {}   # typevar name -> (bounds objects, solution, errors) of the LAST call-level solve (the checking pass)
+        records = {}   # typevar name -> (bound objects, solution, own errors) of the LAST call-level solve (the checking pass)
         orig = SIG.resolve_bounds_map
 
         def recorder(bounds_map, ctx_, **kw):
@@ -670,94 +753,117 @@ def run_e2e(ctx, cases, with_model=True):
             fails, _, _ = pya.check_source(src)
         finally:
             SIG.resolve_bounds_map = orig
-        diag, reveal = {}, {}
+        by_line = {inst["line"]: inst for inst in insts}
+        for inst in insts:
+            inst["codes"], inst["reveal"] = [], "?"
         for f in fails:
-            if f["lineno"] in call_line:
+            inst = by_line.get(f["lineno"])
+            if inst is not None:
                 if f["code"] == "reveal_type":
-                    reveal[f["lineno"]] = f["message"]
+                    inst["reveal"] = f["message"]
                 else:
-                    diag.setdefault(f["lineno"], []).append(f["code"])
-        # ---- per instance: the recorded bounds as bound terms; per case: the verdicts of all orders
-        per_case = {}
-        unit_multisets, unit_owner = [], []
-        for ln, (ci, p) in call_line.items():
-            name, args = part[ci]
-            tvn = next(t for c2, p2, _, t in insts if c2 == ci and p2 == p)
-            codes = sorted(set(diag.get(ln, [])))
-            verdict = "diagnosed" if codes else "accepted"
-            per_case.setdefault(ci, []).append((p, verdict, codes, reveal.get(ln, "?"), tvn))
-            ctx.count(1, **{"e2e_" + verdict: 1, "e2e_shape_" + name: 1})
-        for ci, rows in per_case.items():
-            name, args = part[ci]
-            case = {"stream": "e2e", "shape": name, "args": args}
-            ctx.nontriv("e2e|%s|%s" % (name, ",".join(args)))
-            verdicts = {v for _, v, _, _, _ in rows}
-            # the recorded solves of each order, decoded
-            decoded = []
-            for p, verdict, codes, rev, tvn in rows:
-                recs = {}
-                for role, n in tvn.items():
-                    if n in records:
-                        bounds, sol, errors = records[n]
-                        try:
-                            recs[role] = ([decode_bound(x) for x in bounds], sol, errors, bounds)
-                        except V.Unencodable:
-                            recs[role] = None
-                decoded.append((p, verdict, codes, rev, recs))
-            if b0 == 0 and ci < 3:
-                ctx.sample(dict(case, orders=[{"order": list(p), "verdict": v, "codes": c, "reveal": r} for p, v, c, r, _ in decoded][:3]))
-            for p, verdict, codes, rev, recs in decoded:
-                for role, rec in recs.items():
-                    if rec is None:
+                    inst["codes"].append(f["code"])
+        # ---- per instance: verdict, recorded solves (decoded), predicted bounds
+        for inst in insts:
+            name, args = part[inst["ci"]]
+            params, ret, tvs, _ = shape_of(name)
+            inst["codes"] = sorted(set(inst["codes"]))
+            inst["verdict"] = "diagnosed" if inst["codes"] else "accepted"
+            ctx.count(1, **{"e2e_" + inst["verdict"]: 1, "e2e_shape_" + name: 1})
+            recs = {}
+            for role, n in inst["tvn"].items():
+                if n in records:
+                    bounds, sol, errors = records[n]
+                    try:
+                        recs[role] = ([decode_bound(x) for x in bounds], sol, errors, bounds)
+                    except V.Unencodable:
+                        recs[role] = None
                         ctx.tag("e2e_unencodable_bounds")
-                        continue
-                    unit_multisets.append(rec)
-                    unit_owner.append((dict(case, order=list(p), typevar=role, verdict=verdict, codes=codes, reveal=rev)))
-            if len(verdicts) > 1:
-                ok = next(r for r in decoded if r[1] == "accepted")
-                bad = next(r for r in decoded if r[1] == "diagnosed")
-                per_case[ci] = ("order", case, ok, bad)
+            inst["recs"] = recs
+            per = [expected_param_bounds(params[j], args[j], tvs) for j in inst["p"]]
+            inst["per_param"] = per
+            if all(x is not None for x in per):
+                exp = {}
+                for x in per:
+                    for r, bs in x.items():
+                        exp.setdefault(r, []).extend(bs)
+                inst["expected"] = exp
             else:
-                per_case[ci] = None
-        e2e_unit(ctx, unit_multisets, unit_owner, with_model, checker)
-        pend = []
-        for ci, item in per_case.items():
-            if item is None:
-                continue
-            _, case, ok, bad = item
-            ctx.tag("fail_e2e_order")
-            perms = []
-            enc = True
-            for r in (ok, bad):
-                for role, rec in r[4].items():
-                    if rec is None:
-                        enc = False
-                    else:
-                        perms.append(rec[0])
-            what = "accepted with the (parameter, argument) order %s but diagnosed (%s) with the order %s" % (list(ok[0]), ",".join(bad[2]), list(bad[0]))
-            c = dict(case, kind="order", order_ok=list(ok[0]), order_bad=list(bad[0]), codes=bad[2],
-                     bounds_ok={r: bounds_text(x[0]) for r, x in ok[4].items() if x}, bounds_bad={r: bounds_text(x[0]) for r, x in bad[4].items() if x})
-            pend.append(dict(case=c, what=what, kind="order", conforms=enc, cheap=[], perms=perms))
-        if pend:
-            if with_model:
-                # cheap classes of the recorded bound lists
-                flat = [(c, pb) for c in pend for pb in c["perms"]]
-                out = lean.run_driver("C15", ["resolve %s" % bounds_text(pb) for _, pb in flat])
-                for (c, _), l in zip(flat, out):
-                    c["cheap"] = sorted(set(c["cheap"]) | set(parse_report(l).get("D", [])))
-            classify(ctx, pend, with_model, Universe(), "e2e")
+                inst["expected"] = None
+        e2e_bounds_and_calls(ctx, part, insts, with_model)
+        e2e_unit(ctx, part, insts, with_model, checker)
+        e2e_orders(ctx, part, insts, with_model, b0 == 0)
 
 
-def e2e_unit(ctx, recs, owners, with_model, checker):
-    """The recorded call-level solves: model vs recorded solution, and the property on the recorded solution."""
+def e2e_case(part, inst, **extra):
+    name, args = part[inst["ci"]]
+    return dict({"stream": "e2e", "shape": name, "args": args, "order": list(inst["p"]), "by_keyword": inst["kw"],
+                 "verdict": inst["verdict"], "codes": inst["codes"], "reveal": inst["reveal"]}, **extra)
+
+
+def e2e_bounds_and_calls(ctx, part, insts, with_model):
+    """(a) the bounds the call collected = the bounds predicted from the declared types, in parameter order;
+    (b) for shapes whose parameters are all plain type variables: the call is accepted exactly when every argument alone is
+        solvable, the collected bounds are solvable and the solution accepts every argument (the re-check of
+        check_call_with_bound_args) - predicted with the Lean model."""
+    jobs = []
+    for inst in insts:
+        exp = inst["expected"]
+        if exp is None:
+            continue
+        if risky([v for bs in exp.values() for b in bs for v in bound_values(b)]):
+            continue
+        for role, bs in exp.items():
+            rec = inst["recs"].get(role)
+            if rec:
+                ctx.corr("e2e-bounds")
+                if bounds_text(rec[0]) != bounds_text(bs):
+                    ctx.disagree("e2e-bounds", e2e_case(part, inst, typevar=role), bounds_text(rec[0]), "expected " + bounds_text(bs))
+        name = part[inst["ci"]][0]
+        if with_model and all(p in PLAIN for p in E2E_SHAPES[name][0]):
+            singles = [bs for x in inst["per_param"] for bs in x.values()]
+            jobs.append((inst, singles, list(exp.values())))
+    if not jobs:
+        return
+    lines, owner = [], []
+    for inst, singles, wholes in jobs:
+        for bs in singles:
+            lines.append("resolve " + bounds_text(bs))
+            owner.append((inst, "single"))
+        for bs in wholes:
+            lines.append("resolve " + bounds_text(bs))
+            owner.append((inst, "whole"))
+    out = [parse_report(l) for l in lean.run_driver("C15", lines)]
+    pred = {}
+    for (inst, kind), rep in zip(owner, out):
+        ok = rep.get("res", "").startswith("ok ")
+        if kind == "whole":
+            ok = ok and rep.get("sat", "-")[:1] == "1"
+        pred[id(inst)] = pred.get(id(inst), True) and ok
+    for inst, _, _ in jobs:
+        ctx.corr("e2e-call")
+        want = "accepted" if pred[id(inst)] else "diagnosed"
+        if want != inst["verdict"]:
+            ctx.disagree("e2e-call", e2e_case(part, inst, bounds={r: bounds_text(b) for r, b in inst["expected"].items()}),
+                         inst["verdict"], "predicted " + want)
+
+
+def e2e_unit(ctx, part, insts, with_model, checker):
+    """The recorded call-level solves: model vs recorded solution; the property on accepted calls, evaluated against the
+    predicted bounds where they are known (independent of what the call collected) and the recorded ones otherwise."""
     from pyanalyze import value as PV
     uni = Universe()
+    items = []
+    for inst in insts:
+        for role, rec in inst["recs"].items():
+            if rec is not None:
+                items.append((inst, role, rec))
     reports = None
-    if with_model and recs:
-        out = lean.run_driver("C15", ["resolve %s" % bounds_text(r[0]) for r in recs])
+    if with_model and items:
+        out = lean.run_driver("C15", ["resolve %s" % bounds_text(rec[0]) for _, _, rec in items])
         reports = [parse_report(l) for l in out]
     pending = []
-    for i, ((pb, sol, errors, objs), owner) in enumerate(zip(recs, owners)):
+    for i, (inst, role, (pb, sol, errors, objs)) in enumerate(items):
         impl = show_result(uni, sol, errors, objs)
         conforms = True
         ctx.count(1, e2e_solves=1)
@@ -765,17 +871,25 @@ def e2e_unit(ctx, recs, owners, with_model, checker):
             ctx.corr("e2e")
             if impl != reports[i].get("res"):
                 conforms = False
-                ctx.disagree("e2e", dict(owner, bounds=pb, text=bounds_text(pb)), impl, reports[i]["raw"])
+                ctx.disagree("e2e", e2e_case(part, inst, typevar=role, bounds=pb, text=bounds_text(pb)), impl, reports[i]["raw"])
+        if errors and inst["verdict"] == "accepted":
+            ctx.tag("fail_e2e_unsat")
+            pending.append(dict(case=e2e_case(part, inst, kind="unsat", typevar=role, bounds=pb, text=bounds_text(pb)),
+                                what="the bounds of %s could not be solved but the call is not diagnosed" % role, kind="unsat",
+                                conforms=conforms, cheap=[], perms=[pb]))
         if errors or sol is None:
             continue
-        if owner.get("verdict") != "accepted":
+        if inst["verdict"] != "accepted":
             # the property speaks about accepted calls: after solving, check_call_with_bound_args re-checks every argument
             # against the substituted parameter type, so a solution that misses a bound is diagnosed at the call
             ctx.tag("e2e_call_diagnosed_after_solve")
             continue
-        vals = [uni.bound(b) for b in pb]
+        check = pb
+        if inst["expected"] is not None and role in inst["expected"]:
+            check = inst["expected"][role]
+        vals = [uni.bound(b) for b in check]
         seen = set()
-        for b, o in zip(pb, vals):
+        for b, o in zip(check, vals):
             kind = what = None
             if b[0] == "L" and not sol.is_assignable(o.value, checker):
                 kind, what = "lower", "the solution %s does not accept the lower bound %s" % (sol, o.value)
@@ -786,9 +900,50 @@ def e2e_unit(ctx, recs, owners, with_model, checker):
             if kind and kind not in seen:
                 seen.add(kind)
                 ctx.tag("fail_e2e_" + kind)
-                pending.append(dict(case=dict(owner, kind=kind, bounds=pb, text=bounds_text(pb), solution=impl), what=what, kind=kind,
-                                    conforms=conforms, cheap=reports[i].get("D", []) if reports else [], perms=[pb]))
+                pending.append(dict(case=e2e_case(part, inst, kind=kind, typevar=role, bounds=check, text=bounds_text(check), solution=impl),
+                                    what=what, kind=kind, conforms=conforms, cheap=reports[i].get("D", []) if reports else [], perms=[pb]))
     classify(ctx, pending, with_model, uni, "e2e")
+
+
+def e2e_orders(ctx, part, insts, with_model, sample):
+    """The verdict of a call must not depend on the order of its (parameter, argument) pairs."""
+    per_case = {}
+    for inst in insts:
+        per_case.setdefault(inst["ci"], []).append(inst)
+    pend = []
+    for ci, rows in per_case.items():
+        name, args = part[ci]
+        ctx.nontriv("e2e|%s|%s" % (name, ",".join(args)))
+        if sample and ci < 3:
+            ctx.sample({"stream": "e2e", "shape": name, "args": args,
+                        "orders": [{"order": list(r["p"]), "verdict": r["verdict"], "codes": r["codes"], "reveal": r["reveal"]} for r in rows][:3]})
+        ok = next((r for r in rows if r["verdict"] == "accepted"), None)
+        bad = next((r for r in rows if r["verdict"] == "diagnosed"), None)
+        if ok is None or bad is None:
+            continue
+        ctx.tag("fail_e2e_order")
+        perms, enc = [], True
+        for r in (ok, bad):
+            if r["expected"] is not None:
+                perms += list(r["expected"].values())
+            for role, rec in r["recs"].items():
+                if rec is None:
+                    enc = False
+                else:
+                    perms.append(rec[0])
+        what = "accepted with the (parameter, argument) order %s but diagnosed (%s) with the order %s" % (
+            list(ok["p"]), ",".join(bad["codes"]), list(bad["p"]))
+        case = {"stream": "e2e", "shape": name, "args": args, "kind": "order", "order_ok": list(ok["p"]), "order_bad": list(bad["p"]),
+                "codes": bad["codes"], "bounds_ok": {r: bounds_text(x[0]) for r, x in ok["recs"].items() if x},
+                "bounds_bad": {r: bounds_text(x[0]) for r, x in bad["recs"].items() if x}}
+        pend.append(dict(case=case, what=what, kind="order", conforms=enc, cheap=[], perms=perms))
+    if pend:
+        if with_model:
+            flat = [(c, pb) for c in pend for pb in c["perms"]]
+            out = lean.run_driver("C15", ["resolve %s" % bounds_text(pb) for _, pb in flat])
+            for (c, _), l in zip(flat, out):
+                c["cheap"] = sorted(set(c["cheap"]) | set(parse_report(l).get("D", [])))
+        classify(ctx, pend, with_model, Universe(), "e2e")
 
 
 # ------------------------------------------------------------------ entry points
